@@ -2,7 +2,7 @@
 """tools/triage.py PROP RUNS [KEYSUBSTR] : run cases in-process (no shrinking) and print the first detail per key"""
 import importlib, os, sys
 sys.path.insert(0, os.path.dirname(os.path.dirname(os.path.abspath(__file__))))
-from simlib.core import SimVM, ensure_build, rng_for
+from simlib.core import SimVM, ensure_build, rng_for, execute_case
 prop, runs = sys.argv[1], int(sys.argv[2])
 sub = sys.argv[3] if len(sys.argv) > 3 else ""
 mod = importlib.import_module("simlib.props.%s" % prop.lower())
@@ -12,8 +12,8 @@ seen = {}
 for run in range(runs):
     rng = rng_for(int(os.environ.get("VERIF_SEED", "1")), prop, run)
     case = mod.generate(rng, "quick", run)
-    h = vm.run(case["plan"])
-    for v in mod.judge(case, [h]):
+    hs = execute_case(mod, vm, case)
+    for v in mod.judge(case, hs):
         if sub in v.key and v.key not in seen:
             seen[v.key] = run
             print("=== run %d key=%s\n%s" % (run, v.key, v.detail[:1800]))
